@@ -552,6 +552,9 @@ func generateGhost(p *packages.Package, funcs map[string]*ssa.Function, cs *Cont
 			for i, c := range l.Iters {
 				emit(c, fmt.Sprintf("zz_iter_%s_%d_%d", mn, o, i), lp, "bool", target, true)
 			}
+			for i, c := range l.Exits {
+				emit(c, fmt.Sprintf("zz_exit_%s_%d_%d", mn, o, i), lp, "bool", target, true)
+			}
 		}
 	}
 	for _, name := range names {
